@@ -89,6 +89,33 @@ def gen_case(rng, i):
             s = gen.gen_const_struct(rng, shape=shape, kind=kind)
             s["as"] = gen.choice(rng, ["ndarray", "list"]) if shape else "scalar"
         ops.append(s)
+    flavour = rng.random()
+    if flavour < .12:
+        # operands of different coefficient types side by side, one integer coefficient beyond 2**53: alignment must not
+        # move values into a common type (seeded change C04-13: a closing align_dtype step rounded 2**53+1 to a double)
+        from fractions import Fraction
+        for j, o in enumerate(ops):
+            knd = ["int", "float"][(j + int(rng.integers(2))) % 2]
+            if knd != o["kind"]:
+                fresh = (gen.gen_struct(rng, names=o["names"], shape=o["shape"], kind=knd, nterms=len(o["terms"]))
+                         if o.get("as") == "poly" else gen.gen_const_struct(rng, shape=o["shape"], kind=knd))
+                fresh["as"] = o["as"]
+                ops[j] = fresh
+        ints = [o for o in ops if o["kind"] == "int" and o.get("as") in ("poly", "ndarray")]
+        if ints:
+            o = ints[int(rng.integers(len(ints)))]
+            t = o["terms"][int(rng.integers(len(o["terms"])))]
+            t[1][int(rng.integers(len(t[1])))] = gen.coef_json(Fraction(int(gen.choice(rng, [1, -1])) * (2 ** 53 + 1)))
+    elif flavour < .12 + .10:
+        # operands whose names are declared in a rotated / reversed order (seeded change C02-13)
+        for o in ops:
+            if o.get("as") == "poly" and len(o["names"]) >= 2 and rng.random() < .7:
+                o["as"] = gen.choice(rng, ["poly_rot", "poly_perm"])
+    elif flavour < .34:
+        # coefficient types without a compiled constructor kernel (float32, int8/16/32) on operands of any rank (seeded
+        # change C04-14: the fallback path stored >= 2-d coefficients transposed)
+        for o in ops:
+            o["dtype"] = {"int": gen.choice(rng, ["int8", "int16", "int32"]), "float": "float32"}[o["kind"]]
     opts = {"retain_coefficients": bool(rng.integers(2)), "retain_names": bool(rng.integers(2))} if rng.random() < .4 else \
         {"retain_coefficients": False, "retain_names": True}
     return {"id": i, "kind": "c04", "which": which, "ops": ops, "opts": opts}
